@@ -163,3 +163,14 @@ def has_fact(S, block, pattern, truth):
         if rx.search(e) and tr == truth:
             return True
     return False
+
+
+def call_of(S, v):
+    """for a symbolic value naming an opaque call result ('...call@N:callee...') return (callee, [symbolic args]) of the LAST such call"""
+    m = re.findall(r"call@(\d+):", v)
+    if not m:
+        return None, []
+    t = S.fn.blocks[int(m[-1])]["term"]
+    if t["t"] != "call":
+        return None, []
+    return (t.get("resolved") or t.get("callee") or "?"), [S.val(a) for a in t["args"]]
